@@ -76,3 +76,101 @@ def effect_closure(repo, res, seeds, scope_prefixes=('wpull.',), exclude=('wpull
                         cur |= new
                         changed = True
     return eff, callmap
+
+
+def child_record_rules(ctx, rule_id):
+    """Link records carry the right depth / provenance values: ItemSession.add_child_url (what is stored in the
+    table) and ItemSession.child_url_record (what the pre-filter sees) compute level, inline level, parent and
+    root from the parent record in the documented way - and agree with each other (sibling cross-check)."""
+    repo, ck = ctx.repo, ctx.check
+    SES = 'wpull.pipeline.session:ItemSession'
+    want = {
+        'level': 'self.url_record.level + 1 if level is None else level',
+        'inline_level': '(self.url_record.inline_level or 0) + 1 if inline else ELSE',
+        'parent_url': 'self.url_record.url',
+        'root_url': 'self.url_record.root_url or self.url_record.url',
+    }
+    got = {}
+    for fname, target, else_const in (('add_child_url', 'url_properties', 'None'), ('child_url_record', 'url_record', '0')):
+        fi = repo.func(SES + '.' + fname)
+        vals = {}
+        for n in walk_no_nested(fi.node):
+            if isinstance(n, ast.Assign) and len(n.targets) == 1 and isinstance(n.targets[0], ast.Attribute) \
+                    and isinstance(n.targets[0].value, ast.Name) and n.targets[0].value.id == target:
+                vals.setdefault(n.targets[0].attr, []).append(n)
+        got[fname] = vals
+        for attr, ref in want.items():
+            ref = ref.replace('ELSE', else_const)
+            stores = vals.get(attr, [])
+            if len(stores) != 1:
+                ck.bad(rule_id, fi.qual, '%s.%s assigned once' % (target, attr),
+                       'the child record field %s is assigned %d times in %s' % (attr, len(stores), fname), fi.loc())
+                continue
+            actual = stores[0].value
+            ok = ast.dump(actual) == ast.dump(ast.parse(ref, mode='eval').body)
+            if not ok and attr == 'inline_level':
+                # the else-constant may be None or 0 (both mean "not an inline object")
+                for alt in ('None', '0'):
+                    if ast.dump(actual) == ast.dump(ast.parse(want[attr].replace('ELSE', alt), mode='eval').body):
+                        ok = True
+            ck.expect(ok, rule_id, fi.qual, '%s = %s' % (attr, ref),
+                      'the child link record gets %s = `%s` instead of `%s`: depth limits / no-parent / span-hosts decisions '
+                      'are taken on wrong values' % (attr, norm_text(actual), ref), fi.loc(stores[0]))
+    # sibling agreement
+    a, b = got.get('add_child_url', {}), got.get('child_url_record', {})
+    for attr in ('level', 'parent_url', 'root_url'):
+        if len(a.get(attr, [])) == 1 and len(b.get(attr, [])) == 1:
+            same = ast.dump(a[attr][0].value) == ast.dump(b[attr][0].value)
+            ck.expect(same, rule_id, SES, 'add_child_url and child_url_record agree on ' + attr,
+                      'the record stored in the table and the record shown to the filters compute %s differently: `%s` vs `%s`'
+                      % (attr, norm_text(a[attr][0].value), norm_text(b[attr][0].value)), 'wpull/pipeline/session.py')
+    # the values reach the table: url_properties is what add_url receives
+    fi = repo.func(SES + '.add_child_url')
+    okp = any(norm_text(c).startswith('self.add_url(%s, url_properties' % fi.params[1]) for c in U.calls(fi.node))
+    ck.expect(okp, rule_id, fi.qual, 'add_url(url, url_properties, ...)', 'the computed properties are not the ones stored', fi.loc())
+    up = repo.cls('wpull.pipeline.item:URLProperties')
+    attrs = None
+    for name, v in up.class_assigns.items():
+        if name == 'database_attributes':
+            try:
+                attrs = set(repo.fold(up.module, v))
+            except ValueError:
+                attrs = None
+    ck.expect(attrs is not None and {'parent_url', 'root_url', 'level', 'inline_level'} <= attrs, rule_id, up.qual,
+              'database_attributes include parent_url, root_url, level, inline_level',
+              'URLProperties no longer stores level/inline_level/parent/root: %s' % attrs, up.module.path)
+
+
+class _RemapCheck:
+    """Proxy of a Check that reports another property's shared rule under this property's rule id."""
+
+    def __init__(self, ck, mapping):
+        self._ck = ck
+        self._map = mapping
+
+    def _m(self, rid):
+        return self._map.get(rid, rid)
+
+    def rule(self, rid, text):
+        return self._ck.rule(self._m(rid), text)
+
+    def ok(self, rid, *a, **k):
+        return self._ck.ok(self._m(rid), *a, **k)
+
+    def bad(self, rid, *a, **k):
+        return self._ck.bad(self._m(rid), *a, **k)
+
+    def expect(self, cond, rid, *a, **k):
+        return self._ck.expect(cond, self._m(rid), *a, **k)
+
+    def __getattr__(self, name):
+        return getattr(self._ck, name)
+
+
+class RemapCtx:
+    def __init__(self, ctx, mapping):
+        self._ctx = ctx
+        self.check = _RemapCheck(ctx.check, mapping)
+
+    def __getattr__(self, name):
+        return getattr(self._ctx, name)
